@@ -185,6 +185,8 @@ func (s *scripted) run(program []string) *clientRun {
 			if !do(op, func() (*gen.Msg, error) { return nil, bidi.CloseRequest() }) {
 				return cr
 			}
+		case (op == "R" || op == "Rall") && s.kind == svc.ServerStream && sstream == nil:
+			// the call itself failed: there is no stream to receive from
 		case op == "R" || op == "Rall":
 			for {
 				ok := do("R", func() (*gen.Msg, error) {
